@@ -130,7 +130,13 @@ P11 = {   # a built-in function among the identifiers
             ('main.oal', 2, 29, 'one', 'use', 'one'), ('main.oal', 3, 4, 'one', 'use', 'one')],
     "nonident": [("main.oal", 0, 9)],
 }
-PROGRAMS = {"built-in-function-in-use": P11, "adjacent-identifier-tokens": P10, "uses-at-the-start-of-a-line": P9, "one-name-three-roles": P8, "modules-in-sub-directories": P7, "unqualified-import": P5, "nested-same-name-binders": P6, "single-module": P1, "two-modules": P2, "shadowing-and-reference": P3, "sibling-modules-same-shape": P4}
+P12 = {   # two parameters of one name: the use denotes the one evaluation binds (the last) - if the program is accepted at all
+    "files": {"main.oal": "let f x x = { 'v x };\nres /a on get -> <f num str>;\n"},
+    "occ": [('main.oal', 0, 4, 'f', 'decl', 'f'), ('main.oal', 0, 8, 'x', 'binder', 'x2'), ('main.oal', 0, 17, 'x', 'use', 'x2'), ('main.oal', 1, 18, 'f', 'use', 'f')],
+    "nonident": [("main.oal", 0, 10)],
+    "may_be_rejected": True,
+}
+PROGRAMS = {"two-parameters-of-one-name": P12, "built-in-function-in-use": P11, "adjacent-identifier-tokens": P10, "uses-at-the-start-of-a-line": P9, "one-name-three-roles": P8, "modules-in-sub-directories": P7, "unqualified-import": P5, "nested-same-name-binders": P6, "single-module": P1, "two-modules": P2, "shadowing-and-reference": P3, "sibling-modules-same-shape": P4}
 
 
 def relname(uri, root):
@@ -189,6 +195,9 @@ def run(rdir, want=("definition", "references", "rename")):
         cdir = os.path.join(root, "compile")
         base = run_cli(cli, files, workdir=cdir)
         d = detail.setdefault(pname, {"requests": 0, "silent": []})
+        if P.get("may_be_rejected") and base["rc"] != 0:
+            d["skipped"] = "not accepted on this tree"
+            continue
 
         def fresh():
             s = lspdrv.Server(binary, root)
